@@ -6,7 +6,7 @@ sys.path.insert(0, os.path.dirname(os.path.abspath(__file__)))
 import vlib
 
 vlib.sync_coq_work()
-ok, msg, _, _ = vlib.translate()
+ok, msg, _, _, _ = vlib.translate()
 print("translator:", msg)
 if not ok:
     sys.exit(1)
